@@ -1605,14 +1605,26 @@ def nontrivial(case, res):
     if "compute" not in res or not res["compute"]["out"]:
         return False
     ncells = len(res["cells"])
-    inside = sum(c[1]["count"] for c in res["cells"])
+    inside = sum(_count_in(c[1]) for c in res["cells"])
     return ncells >= 2 and inside >= 2
+
+
+def _count_in(state):
+    if "count" in state:
+        return state["count"]
+    return sum(_count_in(c[1]) for c in state["cells"])
 
 
 def classify(case, res):
     edges = case["edges"]
     dim = (len(edges) if edges and isinstance(edges[0], list) else 1)
-    labels = [f"dim={dim}", "acc=" + case["spec"]["acc"]]
+    labels = [f"dim={dim}", "acc=" + (case["inner"]["spec"]["acc"] if case.get("inner") else case["spec"]["acc"])]
+    if case.get("inner"):
+        labels.append("two-level")
+    if case.get("fscale", 1) > 1:
+        labels.append("float-coordinates")
+    if case.get("twice"):
+        labels.append("compute-twice")
     if "init" in res:
         labels.append("init:" + res["init"])
     elif "fill" in res:
@@ -1623,7 +1635,14 @@ def classify(case, res):
             labels.append("compute:" + res["compute"]["fin"])
         for k in ("iter", "map"):
             if res.get(k):
-                labels.append(k + (":" + res[k]["fin"] if res[k]["fin"] else ":ok"))
+                if "init" in res[k]:
+                    labels.append(k + ":init:" + res[k]["init"])
+                else:
+                    labels.append(k + (":" + res[k]["fin"] if res[k]["fin"] else ":ok"))
+                    if any("h" in v for v in case[k]["pre"] + case[k]["post"]):
+                        labels.append(k + ":synthetic-histogram")
+        if case.get("iter") and (case["iter"].get("ces") or {}).get("k", "default") != "default":
+            labels.append("ces=" + case["iter"]["ces"]["k"])
         if any(s["k"] in ("setkey", "var") for s in case["spec"]["pre"]):
             labels.append("pre-mutates-context")
         if any("c" in v for v in case["flow"]):
